@@ -597,3 +597,52 @@ Definition rq_handle := rq_handle_with rq_answer_of.
 Definition rq_handle_spec := rq_handle_with rq_answer_spec.
 
 Definition rq_handle_mid := rq_handle_with rq_answer_mid.
+
+(* ---------------------------------------------------------------- the unit over time
+   The query limits are not a constant of the API object: PrefixesApi holds the
+   Arc<ArcSwap<QueryLimits>> it shares with RibUnitRunner and loads it for every
+   request (request.rs parse_include_param: query_limits.load()); the unit's
+   reconfigure path stores the new limits into that cell
+   (unit.rs run(), GateStatus::Reconfiguring: arc_self.query_limits.store(..)).
+   So the limits are part of the STATE, next to the RIB content, and a request
+   is answered from the state at the moment it is handled. *)
+Record rq_state := MkSt { st_lim : rq_limits; st_rib : rib }.
+
+Inductive rq_op :=
+| OLimits (lim : rq_limits)      (* (re)configuration: query_limits.store(Arc::new(new_query_limits)) *)
+| OUpdate (u : update)           (* RibUnitRunner::process_update *)
+| ORequest (rq : rq_request).    (* PrefixesApi::process_request *)
+
+Definition rq_step_with (answer : rib -> rq_tbl -> rq_reg -> bool -> rq_pfx -> rq_query -> rq_answer)
+           (tbl : rq_tbl) (reg : rq_reg) (s : rq_state) (o : rq_op) : rq_state * option rq_response :=
+  match o with
+  | OLimits l => (MkSt l (st_rib s), None)
+  | OUpdate u => (MkSt (st_lim s) (rib_apply (st_rib s) u), None)
+  | ORequest rq => (s, Some (rq_handle_with answer (st_lim s) (st_rib s) tbl reg rq))
+  end.
+
+(* the responses a history of operations produces, in order *)
+Fixpoint rq_run_with (answer : rib -> rq_tbl -> rq_reg -> bool -> rq_pfx -> rq_query -> rq_answer)
+         (tbl : rq_tbl) (reg : rq_reg) (s : rq_state) (ops : list rq_op) : list rq_response :=
+  match ops with
+  | [] => []
+  | o :: rest =>
+    let '(s', out) := rq_step_with answer tbl reg s o in
+    match out with
+    | Some resp => resp :: rq_run_with answer tbl reg s' rest
+    | None => rq_run_with answer tbl reg s' rest
+    end
+  end.
+
+Definition rq_step := rq_step_with rq_answer_of.
+Definition rq_step_spec := rq_step_with rq_answer_spec.
+Definition rq_step_mid := rq_step_with rq_answer_mid.
+Definition rq_run := rq_run_with rq_answer_of.
+
+(* vocabulary of the history theorems *)
+Definition rq_is_limits (o : rq_op) : bool := match o with OLimits _ => true | _ => false end.
+Definition rq_is_request (o : rq_op) : bool := match o with ORequest _ => true | _ => false end.
+Definition rq_count_requests (ops : list rq_op) : nat := length (filter rq_is_request ops).
+(* the RIB content after the updates of a history (limits and requests do not touch it) *)
+Definition rq_rib_after (r : rib) (ops : list rq_op) : rib :=
+  fold_left (fun r o => match o with OUpdate u => rib_apply r u | _ => r end) ops r.
